@@ -171,6 +171,12 @@ def run(ctx: Ctx):
                 it = check_mutation(ctx, g, gname, full)
                 if it:
                     items.append(it)
+                # trees rooted in other nonterminals are mutated as well (the solver mutates whole inputs, the API any tree)
+                subs = [nd for pth, nd in T.paths(full) if pth and nd[1] in c and nd[2]]
+                if subs and rng.random() < 0.5:
+                    it = check_mutation(ctx, g, gname, rng.choice(subs))
+                    if it:
+                        items.append(it)
         certify(ctx, g, items)
     ctx.obligation("certification: every tree returned by expand_tree / the mutator on the explored inputs is accepted by the proved checkers", not ctx.violations)
     if not ok and not ctx.violations:
